@@ -74,7 +74,7 @@ impl FixtureDatabase {
             let Some(content) = self.get_file_content(&path) else {
                 continue;
             };
-            let Some(parsed) = self.get_parsed_ast(&path, &content) else {
+            let Some(parsed) = self.get_parsed_ast_or_last_valid(&path, &content) else {
                 continue;
             };
             let rustpython_parser::ast::Mod::Module(module) = parsed.as_ref() else {
